@@ -36,7 +36,7 @@ NumCases == {x \in {[fam |-> "number", num |-> n, unit |-> u, attr |-> a] :
                 \* ("line-end-only": a line that gives only x2 / y2 - the start is at 0; "root-width": the only
                 \* dimension the author gives on the root; "use-x": the offset of an instance)
                 a \in {"rect-x", "rect-width", "circle-r", "line-x2", "stroke-width", "text-x", "stop-offset", "font-size",
-                       "line-end-only", "root-width", "use-x", "ellipse-cx", "ellipse-cy", "circle-cy", "rect-y", "line-y1"}
+                       "line-end-only", "root-width", "use-x", "ellipse-cx", "ellipse-cy", "circle-cy", "rect-y", "line-y1", "text-x-only", "text-y-only"}
                       \* ("solo": a fully specified shape in which exactly ONE geometry attribute carries the length
                       \* under test and all the others are plain numbers - every attribute of every basic shape in turn)
                       \cup SoloAttrs} :
